@@ -76,7 +76,15 @@ func valList(ss []string) value {
 	return out
 }
 
-func errVal(fr *frame, msg string) value { return iface{t: fr.i.runtimeErrorString, v: msg} }
+// errVal builds a plain error value (errors.New) with the given text.
+func errVal(fr *frame, msg string) value {
+	if p := fr.i.prog.ImportedPackage("errors"); p != nil {
+		if f := p.Func("New"); f != nil {
+			return call(fr.i, fr, token.NoPos, f, []value{msg})
+		}
+	}
+	return iface{t: fr.i.runtimeErrorString, v: msg}
+}
 
 func toGo(v value) interface{} {
 	switch x := v.(type) {
